@@ -463,7 +463,9 @@ fn run_lang<L: Language>(lang: &'static LangSig, rng: &mut Rng, n: usize, exhaus
         }
     }
     out.add("distinct_shapes", tabs.shape_to_key.len() as u64);
-    out.add("nt_exact", tabs.shape_to_key.len() as u64);
+    for k in tabs.key_to_shape.keys() {
+        out.nt_many.push(crate::rng::fnv(&format!("{}/{k}", lang.name)));
+    }
 }
 
 fn binder_lists(k: usize) -> Vec<Vec<u32>> {
